@@ -99,6 +99,15 @@ def build(seed, for_feedforward=False):
     imu = imu0.iloc[ii]
     traj = traj0.iloc[ii]
     inc = strapdown.compute_increments_from_imu(imu, 'rate')
+    # representation of the tables (own stream, so that the schedules themselves stay as they were): label-addressed tables may come with
+    # their columns in another order, unrelated extra columns and an unnamed time index
+    frng = np.random.Generator(np.random.PCG64(int(seed) + 977))
+    table_forms = bool(frng.random() < 0.3)
+    if table_forms:
+        from rv.workloads import forms
+        inc = forms.shuffle_table(inc, frng)
+        if frng.random() < 0.5:
+            inc = forms.rename_index(inc, None)
     t = np.asarray(traj.index, float)
     start, end = t[0], t[-1]
     h = float(np.median(np.diff(t)))
@@ -134,6 +143,8 @@ def build(seed, for_feedforward=False):
         else:
             data = sim.generate_body_velocity_measurements(ref, sd, mseed) if len(e) else pd.DataFrame(columns=['VX', 'VY', 'VZ'], index=pd.Index([], dtype=float), dtype=float)
             m = measurements.BodyVelocity(data, sd)
+        if table_forms and len(e):
+            m = type(m)(forms.shuffle_table(data, frng, extra=bool(frng.integers(0, 2))), sd, *([lever] if cls != 'BodyVelocity' else []))
         sensors.append(m)
         desc.append(dict(cls=cls, modes=modes, n=int(len(e)), lever=lever,
                          inside=int(((e >= start) & (e < end)).sum())))
@@ -162,7 +173,7 @@ def build(seed, for_feedforward=False):
     return dict(traj=traj, imu=imu, increments=inc, measurements=meas_arg, sensors=sensors, times=t, start=start, end=end,
                 with_altitude=with_altitude, time_step=time_step, gyro_model=gm, accel_model=am, model_kind=mk,
                 describe=dict(imu=kind, step=step, n_inc=int(len(inc)), median_dt=h, max_gap=float(np.diff(t).max()),
-                              time_step=time_step, with_altitude=with_altitude, models=mk, sensors=desc,
+                              time_step=time_step, with_altitude=with_altitude, models=mk, sensors=desc, tables_permuted=table_forms,
                               measurements_arg='list' if sensors else ('None' if meas_arg is None else '[]'),
                               epochs_inside=int(len(inside)), max_epochs_in_one_interval=int(per_interval)),
                 init_err=init_err)
